@@ -460,6 +460,7 @@ type c18in struct {
 	Detail   string `json:"detail,omitempty"`
 	Bit      int    `json:"bit,omitempty"`
 	KeyRR    string `json:"key_rr,omitempty"`
+	Template string `json:"sig_template,omitempty"`
 }
 
 var st = map[string]int{}
@@ -748,6 +749,14 @@ const (
 )
 
 func oracleMessage(r *Rng, m *dns.Msg, kp keyPair, others []keyPair, mode int) []byte {
+	return oracleMessageT(r, m, kp, others, mode, nil)
+}
+
+// oracleMessageT: the same with a SIG value whose header and remaining fields the
+// caller has filled before Sign (template.go). What Sign must produce does not
+// depend on them: sigRdata and the expected size use the five fields Sign's
+// documentation names (algorithm, times, key tag, signer) and nothing else.
+func oracleMessageT(r *Rng, m *dns.Msg, kp keyPair, others []keyPair, mode int, tpl *sigTemplate) []byte {
 	now := uint32(time.Now().Unix())
 	s := newSig(kp, now-3000, now+3000)
 	packed, perr := m.Pack()
@@ -755,6 +764,11 @@ func oracleMessage(r *Rng, m *dns.Msg, kp keyPair, others []keyPair, mode int) [
 		return nil
 	}
 	in := c18in{Msg: Hx(packed), Alg: kp.name, Compress: m.Compress, Len: len(packed), Extra: len(m.Extra), KeyRR: kp.key.String()}
+	if tpl != nil {
+		tpl.fill(s, kp)
+		in.Template = tpl.describe(s)
+		st["template_sign_checked"]++
+	}
 	// the size of the signed message is known beforehand: Pack(), one SIG record
 	// (root owner, ten fixed octets, RDATA), a signature whose length the key fixes
 	total := len(packed) + 11 + len(sigRdata(s)) + sigLen(kp)
